@@ -376,9 +376,9 @@ pub mod unit {
                 ret is Ok <==> is_numeral(s@, 18) && in_i192(numeral_value(s@, 18)),
                 ret matches Err(e) ==> dec_rejection(e) matches Some(r) && rejected_as(s@, 18, i192_min(), i192_max(), r),
         @subst <<s.split(>> => <<split_char(s,>> why: core::str::Split<'a, P> cannot be named in Verus (declaring core::str::pattern::Pattern, a trait with a generic associated type, crashes the front end); split_char(s, c) is the shim for s.split(c) with the assumed contract S1 (shims/str_split_c27.rs); the argument and `.collect()` stay verbatim
-        @subst <<v[1].starts_with(>> => <<starts_with_char_fn(v[1],>> why: the contract of str::starts_with for a CLOSURE pattern needs a broadcast axiom over the closure type, which does not fire inside trait-impl methods on this Verus; starts_with_char_fn(s, f) is the shim for s.starts_with(f) with the assumed contract S2 (shims/str_split_c27.rs); receiver and closure stay verbatim
+        @subst <<v[1].starts_with(>> => <<v[1].starts_with_char_fn(>> why: the contract of str::starts_with for a CLOSURE pattern needs a broadcast axiom over the closure type, which does not fire inside trait-impl methods on this Verus; s.starts_with_char_fn(f) is the shim for s.starts_with(f) with the assumed contract S2 (shims/str_split_c27.rs); receiver and closure stay verbatim
         @closure 1 := |c: char| -> (b: bool) ensures b == (c == '+' || c == '-')
-        @before <<if v.len() > 2>>
+        @before <<if v.len()>> #1
             let ghost t = s@;
             let ghost ps = piece_views(v@);
             proof {
@@ -400,7 +400,7 @@ pub mod unit {
                 }
                 if has_point(t) && all_digits(frac_text(t)) { lemma_digits_are_ascii(frac_text(t)); }
             }
-        @before <<if v.len() == 2>>
+        @before <<if v.len()>> #2
             proof {
                 assert(subunits.v() == int_val(int_text(t)) * ipow(10, 18));
             }
@@ -435,7 +435,7 @@ pub mod unit {
                 assert(in_i192(ipow(10, scale as nat)));
                 assert(in_i192(dec_val(f) * ipow(10, scale as nat)));
             }
-        @before <<if integer_part.is_negative()>>
+        @after <<let fractional_subunits =>>
             proof {
                 let f = frac_text(t);
                 assert(fractional_subunits.v() == dec_val(f) * ipow(10, (18 - f.len()) as nat));
@@ -459,9 +459,9 @@ pub mod unit {
                 ret is Ok <==> is_numeral(s@, 36) && in_i256(numeral_value(s@, 36)),
                 ret matches Err(e) ==> pdec_rejection(e) matches Some(r) && rejected_as(s@, 36, i256_min(), i256_max(), r),
         @subst <<s.split(>> => <<split_char(s,>> why: core::str::Split<'a, P> cannot be named in Verus (declaring core::str::pattern::Pattern, a trait with a generic associated type, crashes the front end); split_char(s, c) is the shim for s.split(c) with the assumed contract S1 (shims/str_split_c27.rs); the argument and `.collect()` stay verbatim
-        @subst <<v[1].starts_with(>> => <<starts_with_char_fn(v[1],>> why: the contract of str::starts_with for a CLOSURE pattern needs a broadcast axiom over the closure type, which does not fire inside trait-impl methods on this Verus; starts_with_char_fn(s, f) is the shim for s.starts_with(f) with the assumed contract S2 (shims/str_split_c27.rs); receiver and closure stay verbatim
+        @subst <<v[1].starts_with(>> => <<v[1].starts_with_char_fn(>> why: the contract of str::starts_with for a CLOSURE pattern needs a broadcast axiom over the closure type, which does not fire inside trait-impl methods on this Verus; s.starts_with_char_fn(f) is the shim for s.starts_with(f) with the assumed contract S2 (shims/str_split_c27.rs); receiver and closure stay verbatim
         @closure 1 := |c: char| -> (b: bool) ensures b == (c == '+' || c == '-')
-        @before <<if v.len() > 2>>
+        @before <<if v.len()>> #1
             let ghost t = s@;
             let ghost ps = piece_views(v@);
             proof {
@@ -483,7 +483,7 @@ pub mod unit {
                 }
                 if has_point(t) && all_digits(frac_text(t)) { lemma_digits_are_ascii(frac_text(t)); }
             }
-        @before <<if v.len() == 2>>
+        @before <<if v.len()>> #2
             proof {
                 assert(subunits.v() == int_val(int_text(t)) * ipow(10, 36));
             }
@@ -518,7 +518,7 @@ pub mod unit {
                 assert(in_i256(ipow(10, scale as nat)));
                 assert(in_i256(dec_val(f) * ipow(10, scale as nat)));
             }
-        @before <<if integer_part.is_negative()>>
+        @after <<let fractional_subunits =>>
             proof {
                 let f = frac_text(t);
                 assert(fractional_subunits.v() == dec_val(f) * ipow(10, (36 - f.len()) as nat));
@@ -610,6 +610,44 @@ pub mod unit {
     {
         proof { lemma_printed_form_denotes_value(text@, x, 36, whole, part); }
         PreciseDecimal::from_str(text)
+    }
+
+    // ---- sanity of the oracle on concrete texts (non-vacuity of the definitions above) -------------------
+    /// "-0.1" is a printed form of -10^17 at scale 18; so it is a numeral of that value
+    pub proof fn lemma_witness_minus_point_one()
+        ensures
+            is_printed_form(seq!['-', '0', '.', '1'], -100_000_000_000_000_000, 18, seq!['0'], seq!['1']),
+            is_numeral(seq!['-', '0', '.', '1'], 18),
+            numeral_value(seq!['-', '0', '.', '1'], 18) == -100_000_000_000_000_000,
+    {
+        let t = seq!['-', '0', '.', '1'];
+        let w = seq!['0'];
+        let f = seq!['1'];
+        reveal_with_fuel(ipow, 20);
+        reveal_with_fuel(dec_val, 3);
+        assert(w.drop_last() =~= Seq::<char>::empty());
+        assert(f.drop_last() =~= Seq::<char>::empty());
+        assert(dec_val(w) == 0);
+        assert(dec_val(f) == 1);
+        assert(ipow(10, 17) == 100_000_000_000_000_000);
+        assert(ipow(10, 18) == 1_000_000_000_000_000_000);
+        assert(t =~= seq!['-'] + w + seq!['.'] + f);
+        assert(is_printed_form(t, -100_000_000_000_000_000, 18, w, f));
+        lemma_printed_form_denotes_value(t, -100_000_000_000_000_000, 18, w, f);
+    }
+    /// the inputs of the defect fixed in /repo commit 5c4b0ece77 ("1.-5" was parsed as 0.95) are NOT numerals
+    pub proof fn lemma_witness_sign_in_fraction_is_not_a_numeral()
+        ensures !is_numeral(seq!['1', '.', '-', '5'], 18), !is_numeral(seq!['1', '.', '+', '5'], 36)
+    {
+        let a = seq!['1', '.', '-', '5'];
+        let b = seq!['1', '.', '+', '5'];
+        reveal_with_fuel(dot_pos, 3);
+        assert(a.skip(1)[0] == '.');
+        assert(b.skip(1)[0] == '.');
+        assert(dot_pos(a) == 1 && dot_pos(b) == 1);
+        assert(frac_text(a)[0] == '-');
+        assert(frac_text(b)[0] == '+');
+        assert(!is_digit('-') && !is_digit('+'));
     }
 }
 } // verus!
